@@ -164,8 +164,9 @@ CLAIMS = {
             "first Toeplitz argument only, rows 1:n/2+1, Gaussian window, inverse FFT along axis 1, flipud) and are linear, complex, "
             "(n/2) x n; the inverse is linear, sums over time, rebuilds the Hermitian halves leaving bins 0 and n/2 zero and returns "
             "the real part; dominant-frequency helpers take argmax(abs(.), axis=0) through a flipped frequency axis of degree -1 in "
-            "dt. The Gaussian width, the conjugation convention against the textbook definition, the marginal and inverse to "
-            "rounding are NOT decided (a width change in the shared window is invisible to a sibling comparison).",
+            "dt; the shared voice window is exp(-(2 pi f_m/f_k)^2/2) over FFT-ordered signed frequencies with k from 1 (normal form "
+            "against a reference spelling, so a changed width or missing square refutes). The conjugation convention against the "
+            "textbook definition, the marginal and the inverse to rounding are NOT decided.",
             "Thin claim; trusted: API rows fft/ifft/toeplitz."),
     "C18": ("polynomial normal form of the rotation, def-use of the scan's loop variable, loop-variable selection rule over the "
             "Cluster loops, path enumeration for the master guard",
